@@ -8,6 +8,7 @@ import (
 	"encoding/hex"
 	"fmt"
 	"io"
+	"log"
 	"log/slog"
 	"net"
 	"net/http"
@@ -35,6 +36,7 @@ import (
 //	b<class>     body class: x<N> (N filler bytes) | json | badjson | html | badhtml | empty
 //	c<N>         declare Content-Length N although the body is shorter/longer (truncation)
 //	h<name>~<hexvalue>  extra response header
+//	v<name>~<N>  extra response header whose value is N filler bytes
 //	act<what>    close | reset | hang | garbage | badhdr | midreset | midclose | nolen (body until close, no length)
 type Script struct {
 	Status  int
@@ -80,6 +82,16 @@ func ParseScript(s string) (Script, error) {
 				return sc, err
 			}
 			sc.DeclLen = n
+		case f[0] == 'v':
+			kv := strings.SplitN(f[1:], "~", 2)
+			if len(kv) != 2 {
+				return sc, fmt.Errorf("bad header field %q", f)
+			}
+			n, err := strconv.Atoi(kv[1])
+			if err != nil || n < 0 || n > 8<<20 {
+				return sc, fmt.Errorf("bad header size %q", f)
+			}
+			sc.Headers = append(sc.Headers, [2]string{kv[0], strings.Repeat("v", n)})
 		case f[0] == 'h':
 			kv := strings.SplitN(f[1:], "~", 2)
 			if len(kv) != 2 {
@@ -358,7 +370,7 @@ func NewTLSTarget(h2 bool) (addr string, stop func()) {
 	if !h2 {
 		srv.TLS = &tls.Config{NextProtos: []string{"http/1.1"}}
 	}
-	srv.Config.ErrorLog = nil
+	srv.Config.ErrorLog = log.New(io.Discard, "", 0)
 	srv.StartTLS()
 	return srv.Listener.Addr().String(), srv.Close
 }
@@ -367,10 +379,21 @@ func NewTLSTarget(h2 bool) (addr string, stop func()) {
 
 // NewGrpcTarget serves the repo's examples/grpc/server service with reflection. A call carrying metadata
 // "x-code: N" is answered with status code N (any uint32, also out of the defined range); "x-hang: 1" never answers.
-func NewGrpcTarget() (addr string, stop func()) {
+func NewGrpcTarget() (addr string, stop func()) { return NewGrpcTargetStopAfter(0) }
+
+// NewGrpcTargetStopAfter: as NewGrpcTarget, but the whole server goes away (listener and connections closed) while
+// it handles its k-th scripted-service call (k > 0): early close followed by refusal.
+func NewGrpcTargetStopAfter(k int) (addr string, stop func()) {
+	var calls atomic.Int64
+	var gs *grpc.Server
 	scripted := func(ctx context.Context, method string) (bool, error) {
 		if !strings.HasPrefix(method, "/target.") {
 			return false, nil
+		}
+		if n := calls.Add(1); k > 0 && int(n) == k {
+			go gs.Stop()
+			<-ctx.Done()
+			return true, status.Error(codes.Unavailable, "going away")
 		}
 		md, _ := metadata.FromIncomingContext(ctx)
 		if v := md.Get("x-hang"); len(v) > 0 {
@@ -388,7 +411,7 @@ func NewGrpcTarget() (addr string, stop func()) {
 		}
 		return false, nil
 	}
-	gs := grpc.NewServer(grpc.UnaryInterceptor(func(ctx context.Context, req any, info *grpc.UnaryServerInfo, h grpc.UnaryHandler) (any, error) {
+	gs = grpc.NewServer(grpc.UnaryInterceptor(func(ctx context.Context, req any, info *grpc.UnaryServerInfo, h grpc.UnaryHandler) (any, error) {
 		if done, err := scripted(ctx, info.FullMethod); done {
 			return nil, err
 		}
